@@ -6,7 +6,13 @@ from . import corpus
 from . import ops as O
 from .editsim import Plugin, StopRun, Violation, check_consistent, modifying_registry, plugin
 from .model import fdump, resolve, sdump
-from .props_c07 import ndump, parse_standalone
+from .props_c07 import ndump_ml as ndump, parse_standalone
+
+
+def _shape(tree):
+    """Node types and positions of every node, Constant values left out."""
+    return [(n.__class__.__name__, getattr(n, 'lineno', None), getattr(n, 'col_offset', None), getattr(n, 'end_lineno', None),
+             getattr(n, 'end_col_offset', None)) for n in ast.walk(tree)]
 
 KINDS = ['rt_cut_node', 'rt_cut_slice', 'rt_replace', 'own_src', 'docstr', 'line_comment']
 
@@ -81,6 +87,29 @@ class C08(Plugin):
 
     # -----------------------------------------------------------------------------------------------------------------
 
+    def after_roundtrip(self):
+        """After the closing step of a round trip: an inconsistent tree is normally C01's business (collateral), but if the
+        ONLY difference between the tree and a parse of its source are Constant values, the clause 'AST values always
+        equal what the new source text denotes' of C08 is what failed."""
+        run = self.run
+        bad = check_consistent(run.root)
+        if bad is None:
+            if modifying_registry():
+                run.core_after_ok(False)
+            return
+        try:
+            parsed = ast.parse(run.root.src)
+        except SyntaxError:
+            parsed = None
+        if parsed is not None:
+            vals_p = [repr(n.value) for n in ast.walk(parsed) if isinstance(n, ast.Constant)]
+            vals_l = [repr(n.value) for n in ast.walk(run.root.a) if isinstance(n, ast.Constant)]
+
+            if vals_p != vals_l and len(vals_p) == len(vals_l) and _shape(parsed) == _shape(run.root.a):
+                d = [(a, b) for a, b in zip(vals_l, vals_p) if a != b][:3]
+                raise Violation('ast_value_differs_from_source', f'(tree value, source value): {d!r} src={run.root.src[:300]!r}')
+        run.core_after_ok(False)
+
     def warm(self, n):
         """Deterministic 'unrelated queries' between the two halves of a round trip."""
         root = self.run.root
@@ -144,7 +173,7 @@ class C08(Plugin):
                         run.stats['not_implemented'] += 1
                         raise StopRun()
                     raise Violation('put_back_refused', f'{O.exc_repr(e)} after cut of {field}[{idx}]: piece={piece.src[:200]!r} tree={root.src[:300]!r}')
-                run.core_after_ok(False)
+                self.after_roundtrip()
                 if ndump(root.a) != nbefore:
                     from .editsim import _first_diff
                     raise Violation('cut_put_back_changes_structure', _first_diff(nbefore, ndump(root.a)))
@@ -185,7 +214,7 @@ class C08(Plugin):
                         run.stats['not_implemented'] += 1
                         raise StopRun()
                     raise Violation('put_back_refused', f'{O.exc_repr(e)} after slice cut {op["field"]}[{op["start"]}:{op["stop"]}]: piece={getattr(piece, "src", piece)!r}'[:500])
-                run.core_after_ok(False)
+                self.after_roundtrip()
                 if ndump(root.a) != nbefore:
                     from .editsim import _first_diff
                     raise Violation('cut_put_back_changes_structure', _first_diff(nbefore, ndump(root.a)))
@@ -217,7 +246,7 @@ class C08(Plugin):
                         return 'not implemented'
                     self.after_refusal(before)
                     raise Violation('self_replace_refused', f'form={form}: {O.exc_repr(e)} code={getattr(code, "src", code)!r}'[:600])
-                run.core_after_ok(False)
+                self.after_roundtrip()
                 if ndump(root.a) != nbefore:
                     from .editsim import _first_diff
                     raise Violation('self_replace_changes_structure', f'form={form}: ' + _first_diff(nbefore, ndump(root.a)))
